@@ -8,7 +8,7 @@ from hypothesis import strategies as st
 
 from .. import exprgen
 from ..common import Outcome, SplitMix, open_regions
-from ..exprsem import DEFAULT_NAMES, envs, make_eval
+from ..exprsem import DEFAULT_NAMES, ambiguous_twin_binding, envs, has_worlds, make_eval
 from ..sem import FreeVariable, MultiWorld, Undefined
 from .c10 import kinds
 
@@ -60,6 +60,19 @@ def _contract_arg(draw):
     d = {"t": "P", "ch": [[c, None] for c in den_ch], "pa": [], "do": do_d, "pop": pop_d}
     if kind == 4 and k < 4:
         d["ch"] = [[perm[k], None]]
+    if kind == 5 and k < 4 and not do:
+        # a variable of the numerator a second time, in another world (Y next to Y_x), one of the two in the denominator
+        w = [[perm[k], draw(st.booleans())]]
+        j = draw(st.integers(0, len(num_ch) - 1))
+        n["ch"] = n["ch"] + [[num_ch[j], None]]
+        n["vdo"] = [[] for _ in num_ch] + [w]
+        n["do"] = []
+        d["do"] = []
+        if draw(st.booleans()) and num_ch[j] in den_ch:
+            # the denominator holds the counterfactual copy instead of the factual one
+            d["vdo"] = [(w if c == num_ch[j] else []) for c in den_ch]
+        elif len(den_ch) >= 1:
+            d["vdo"] = [[] for _ in den_ch]
     return {"t": "frac", "n": n, "d": d}
 
 
@@ -68,7 +81,7 @@ def _case(draw):
     op = draw(st.sampled_from(OPS))
     mseed = draw(st.integers(0, 2**32))
     c = {"op": op, "mseed": mseed, "raw": draw(st.booleans())}
-    sub = lambda **kw: exprgen.expr_specs(depth=draw(st.sampled_from([0, 1, 2, 2, 3])), q=True, **kw)  # noqa: E731
+    sub = lambda **kw: exprgen.expr_specs(depth=draw(st.sampled_from([0, 1, 2, 2, 3])), q=True, mixed_worlds=op != "conditional", **kw)  # noqa: E731
     if op == "mul":
         c["a"], c["b"] = draw(sub()), draw(sub())
     elif op == "div":
@@ -91,11 +104,11 @@ def _case(draw):
         c["a"] = {"t": "frac", "n": mk(list(draw(st.permutations(num)))), "d": mk(list(draw(st.permutations(den))))}
         c["raw"] = True
     elif op == "sum_simplify":
-        body = draw(st.one_of(exprgen.prob_specs(), sub()))
+        body = draw(st.one_of(exprgen.prob_specs(mixed_worlds=True), sub()))
         c["a"] = {"t": "sum", "rs": sorted(draw(st.lists(st.sampled_from(DEFAULT_NAMES), min_size=1, max_size=4, unique=True))), "x": body}
         c["raw"] = True
     elif op in ("chain_expand", "fraction_expand", "bayes_expand"):
-        c["a"] = draw(exprgen.prob_specs())
+        c["a"] = draw(exprgen.prob_specs(mixed_worlds=True))
         c["reorder"] = draw(st.booleans())
         c["ordering"] = draw(st.sampled_from(["none", "own", "own+extra"]))
         c["shuffle"] = draw(st.integers(0, 2**16))
@@ -145,7 +158,12 @@ def check(case, ignore_regions=False) -> Outcome:
     labels = {"op:" + op}
     build = exprgen.build_raw if case.get("raw") else exprgen.build_public
     names = list(DEFAULT_NAMES)
-    ev, card = make_eval(names, case["mseed"], None)
+    # arguments with multi-world terms are read in a functional model with shared noise; there, assignments at which the
+    # result is undefined (structural zeros of counterfactual events) are skipped like those where the argument is
+    worlds = has_worlds(case)
+    if worlds:
+        labels.add("multi-world-term")
+    ev, card = make_eval(names, case["mseed"], None, worlds=worlds)
     allenvs = list(envs(names, card))
     try:
         a = build(case["a"])
@@ -168,6 +186,9 @@ def check(case, ignore_regions=False) -> Outcome:
 
     def compare(result, want_fn, what):
         """want_fn(env) -> Fraction or None (undefined: skipped)."""
+        if worlds and any(x is not None and ambiguous_twin_binding(x) for x in (a, b, result)):
+            labels.add("sum-binds-a-name-present-in-two-worlds(outside the domain)")
+            return None
         for env in allenvs:
             want = want_fn(env)
             if want is None:
@@ -176,6 +197,8 @@ def check(case, ignore_regions=False) -> Outcome:
                 got = val(result, env)
             except (FreeVariable, MultiWorld, TypeError) as ex:
                 return fail("result-not-evaluable", result=str(result), exc=repr(ex)[:200])
+            if got is None and worlds:
+                continue
             if got != want:
                 return fail(what, result=str(result), assignment=env, result_value=str(got), expected=str(want))
         return None
